@@ -13,8 +13,8 @@ from __future__ import annotations
 import json
 import os
 
-PKG_MODULES = {"p": "p/__init__.py", "p.a": "p/a.py", "p.b": "p/b.py", "p.s": "p/s/__init__.py", "p.s.c": "p/s/c.py", "q": "q/__init__.py"}
-IS_PKG = {"p", "p.s", "q"}
+PKG_MODULES = {"p": "p/__init__.py", "p.a": "p/a.py", "p.b": "p/b.py", "p.s": "p/s/__init__.py", "p.s.c": "p/s/c.py", "q": "q/__init__.py", "r": "r/__init__.py"}
+IS_PKG = {"p", "p.s", "q", "r"}
 NIL = {"m": "", "n": "", "l": 0}
 
 
@@ -291,7 +291,7 @@ def first_diff(spec: list, real: list) -> str:
 ORACLE_SRC = r'''
 import sys, json, importlib, types
 sys.dont_write_bytecode = True
-TOPS = ("p", "q")
+TOPS = ("p", "q", "r")
 def val(v):
     if isinstance(v, types.ModuleType): return {"k": "mod", "id": {"m": v.__name__, "n": "", "l": 0}}
     if isinstance(v, types.FunctionType): return {"k": "def", "id": {"m": v.__module__, "n": v.__name__, "l": v.__code__.co_firstlineno}}
